@@ -166,6 +166,63 @@ def walk(n, hdr_text, ctx, use, out):
     raise Unknown("statement/expression of kind %s" % k)
 
 
+MUTEX_HDR = os.path.join(REPO, "include", "frg", "mutex.hpp")
+
+
+def dump_all(filter_name, header):
+    src = "#include <frg/%s>\n" % header
+    cmd = ["clang++", "-std=c++20", "-fsized-deallocation", "-I", os.path.join(REPO, "include"), "-fsyntax-only",
+           "-Xclang", "-ast-dump=json", "-Xclang", "-ast-dump-filter=" + filter_name, "-x", "c++", "-"]
+    p = subprocess.run(cmd, input=src, capture_output=True, text=True, timeout=120)
+    if p.returncode != 0:
+        die("clang failed on %s: %s" % (header, p.stderr[-500:]))
+    dec = json.JSONDecoder(); i = 0; docs = []
+    txt = p.stdout
+    while i < len(txt):
+        while i < len(txt) and txt[i].isspace():
+            i += 1
+        if i >= len(txt):
+            break
+        d, i = dec.raw_decode(txt, i)
+        docs.append(d)
+    return docs
+
+
+def guard_helpers():
+    """the free functions frg::guard(...) of mutex.hpp: (tag parameter type, guard class built, constructor tag)"""
+    out = []
+    for d in dump_all("guard", "mutex.hpp"):
+        if d.get("kind") != "FunctionTemplateDecl" or d.get("name") != "guard":
+            continue     # e.g. lock_guard pulled in by the substring filter
+        fds = [c for c in d.get("inner", []) if c.get("kind") == "FunctionDecl"]
+        if len(fds) != 1:
+            die("guard(): expected one function pattern")
+        fd = fds[0]
+        parms = [c for c in fd.get("inner", []) if c.get("kind") == "ParmVarDecl"]
+        tags = [p["type"]["qualType"].replace("frg::", "") for p in parms if not p["type"]["qualType"].endswith("*")]
+        ptrs = [p for p in parms if p["type"]["qualType"].endswith("*")]
+        if len(ptrs) != 1 or len(tags) > 1:
+            die("guard(): unexpected parameter list")
+        body = [c for c in fd.get("inner", []) if c.get("kind") == "CompoundStmt"]
+        if len(body) != 1 or len(body[0].get("inner", [])) != 1 or body[0]["inner"][0].get("kind") != "ReturnStmt":
+            die("guard(): body is not a single return statement")
+        e = strip(body[0]["inner"][0]["inner"][0])
+        if e.get("kind") not in ("CXXUnresolvedConstructExpr", "CXXTemporaryObjectExpr", "CXXFunctionalCastExpr"):
+            die("guard(): return expression of kind %s" % e.get("kind"))
+        cls = e["type"]["qualType"].split("<")[0].replace("frg::", "")
+        args = [strip(a) for a in e.get("inner", [])]
+        ctor_tag = ""
+        rest = args
+        if args and args[0].get("kind") == "DeclRefExpr":
+            ctor_tag = args[0]["referencedDecl"]["name"]; rest = args[1:]
+        if len(rest) != 1 or rest[0].get("kind") != "UnaryOperator" or strip(rest[0]["inner"][0]).get("referencedDecl", {}).get("name") != ptrs[0].get("name"):
+            die("guard(): the mutex argument is not *<pointer parameter>")
+        out.append((tags[0] if tags else "", cls, ctor_tag))
+    if not out:
+        die("no frg::guard() helper found in mutex.hpp")
+    return out
+
+
 def coq_str(s):
     return '"' + s.replace('"', '""') + '"'
 
@@ -197,6 +254,7 @@ def main():
             except (KeyError, IndexError, ValueError) as e:
                 die("%s::%s: %r" % (struct, fn, e))
             listing.append(("%s::%s" % (struct, fn), out))
+    helpers = guard_helpers()
     lines = ["(* GENERATED by translator/gen_locks.py from %s -- do not edit, not under version control. *)" % HDR,
              "From Coq Require Import String List.", "From FV Require Import Locks.SpinModel.", "Import ListNotations.",
              "Local Open Scope string_scope.", "", "Definition src_listing : list fn_listing := ["]
@@ -210,6 +268,12 @@ def main():
     lines.append(";\n".join(fl))
     lines += ["].", "",
               "Definition src_orders : orders := Eval vm_compute in orders_of src_listing.", "",
+              "(* the free helper functions frg::guard(...) of mutex.hpp: (tag parameter, class built, constructor tag) *)",
+              "Definition src_guard_helpers : list (string * (string * string)) := [",
+              ";\n".join("  (%s, (%s, %s))" % (coq_str(a), coq_str(b), coq_str(c)) for a, b, c in helpers),
+              "].", "",
+              "(* guard(&m) builds unique_lock(m) (locking), guard(dont_lock, &m) builds unique_lock(dont_lock, m) (deferred); no others *)",
+              "Lemma guard_helpers_match_model : guard_helpers_match src_guard_helpers = true.", "Proof. vm_compute. reflexivity. Qed.", "",
               "(* the source has exactly the atomic operations, in the order, on the locations, at the places and with the",
               "   operands that the model Locks/SpinModel.v implements *)",
               "Lemma orders_match_model : ops_match src_listing = true.", "Proof. vm_compute. reflexivity. Qed.", "",
